@@ -1,0 +1,25 @@
+//go:build verif
+
+// Contracts for package engine, checked by /verif/govc. Comment-only: no code.
+package engine
+
+// One iteration of an instance: acquire, wait for a token, shoot or discard, release.
+//@ func (i *instance) Run#lit1
+//@ props C03 C04
+//@ requires waiter.lastNow <= now && i.metrics.Request != i.metrics.Response
+//@ may_panic true
+//@ ensures [waiter-clock] waiter.lastNow <= now
+//@ ensures [one-ammo-at-most] ev(acquire_ok) - old(ev(acquire_ok)) <= 1
+//@ ensures [release-per-acquire] ev(release) - old(ev(release)) == ev(acquire_ok) - old(ev(acquire_ok))
+//@ ensures [token-only-with-ammo] ev(token) - old(ev(token)) <= ev(acquire_ok) - old(ev(acquire_ok))
+//@ ensures [shot-or-discard-per-token] (ev(shoot) - old(ev(shoot))) + (ev(report) - old(ev(report))) <= ev(token) - old(ev(token))
+//@ ensures [no-discard-unless-enabled] imp(!i.discardOverflow, ev(report) == old(ev(report)))
+//@ ensures [request-metric] counterVal[i.metrics.Request] - old(counterVal[i.metrics.Request]) == ev(shoot) - old(ev(shoot))
+//@ ensures [response-metric] counterVal[i.metrics.Response] - old(counterVal[i.metrics.Response]) == ev(shoot) - old(ev(shoot))
+//@ ensures [out-of-ammo] imp(result == outOfAmmoErr, ev(acquire_ok) == old(ev(acquire_ok)))
+//@ panics ensures [release-per-acquire] ev(release) - old(ev(release)) == ev(acquire_ok) - old(ev(acquire_ok))
+//@ at call i.aggregator.Report assert [discarded-sample] arg(s) == box(result_of(netsample.DiscardedShootSample, 0))
+//@ at call i.gun.Shoot assert [ammo-still-held] ev(release) == old(ev(release)) && ev(acquire_ok) == old(ev(acquire_ok)) + 1
+//@ at call i.gun.Shoot assert [not-late-when-discarding] imp(i.discardOverflow && !done(ctx), waiter.overdueDuration < 2000000000)
+//@ at call i.aggregator.Report assert [discard-only-when-late] i.discardOverflow && waiter.overdueDuration >= 2000000000
+//@ at call i.gun.Shoot assert [not-early] done(ctx) || now >= let_of(waiter.Wait, next)
